@@ -655,7 +655,7 @@ func runC03(c *Ctx) {
 func runC04(c *Ctx) {
 	P := c.P
 	c.Explanation = "Decides: (R-GUARD nil) 'a zero Map behaves as an empty read-only map' — every use of the possibly-nil tree pointer (Map.m / Iter.m) as a method receiver or bound receiver in package omap is dominated by a != nil test of the same field with no intervening store; the one exemption is Map.Set, documented to panic on a zero Map. Calls on Iter.c (a possibly-nil *stree.Cursor) are allowed because C03's R-GUARD(valid) makes every cursor method nil-safe; this check re-runs that rule and fails if it fails. Does NOT decide agreement with a reference sorted map, Seek positioning, or iterator order."
-	c.rule("R-GUARD", 10, "every method call on Map.m / Iter.m is under a != nil guard (Map.Set exempt); cursor methods are nil-safe (C03)")
+	c.rule("R-GUARD", 6, "every method call on Map.m / Iter.m is under a != nil guard (Map.Set exempt); cursor methods are nil-safe (C03)")
 	mapT, iterT := P.Named("omap", "Map"), P.Named("omap", "Iter")
 	mF, imF := P.Field("omap", "Map", "m"), P.Field("omap", "Iter", "m")
 	if mapT == nil || iterT == nil || mF == nil || imF == nil {
@@ -663,9 +663,18 @@ func runC04(c *Ctx) {
 		return
 	}
 	eff := newEff(P)
+	isTreePtr := func(t types.Type) bool {
+		p, ok := t.Underlying().(*types.Pointer)
+		if !ok {
+			return false
+		}
+		n, ok := p.Elem().(*types.Named)
+		return ok && n.Obj().Name() == "Tree" && n.Obj().Pkg() != nil && n.Obj().Pkg().Name() == "stree"
+	}
 	isTreeLoad := func(v ssa.Value) (*types.Var, bool) {
 		_, f := loadedField(v)
-		if f != nil && (sameField(f, mF) || sameField(f, imF)) {
+		// only a *stree.Tree can be the nil pointer the property is about (an Iter holding its Map by value calls nil-safe Map methods)
+		if f != nil && (sameField(f, mF) || sameField(f, imF)) && isTreePtr(f.Type()) {
 			return f, true
 		}
 		return nil, false
